@@ -172,10 +172,11 @@ func CurrentContext() Context {
 // Fork calls the given function in a new go routine. The given context is forked and becomes
 // the CurrentContext for that routine.
 func Fork(c Context, doer ContextDoer) {
+	// c belongs to the calling go routine: fork it here, not concurrently in the new go routine
+	cf := c.Fork()
 	go func() {
 		defer threadlocal.Cleanup()
 		threadlocal.Init()
-		cf := c.Fork()
 		threadlocal.Set(PuppetContextKey, cf)
 		doer(cf)
 	}()
